@@ -781,6 +781,31 @@ func (w *World) prove(g boundsGoal, lib libFacts, depth int) (bool, string) {
 				}
 			}
 		}
+		// a position strictly below the length: v < len(x) with v ≥ lo gives len(x) ≥ lo+1, whatever
+		// the goal's own index is (x[len(x)-1] under "found": the last element exists because some
+		// element does). v != len(x) says the same when v is the result of an indexOf on this very
+		// slice value (∈ [0, len(x)], the contract is checked on the function).
+		below := func(v ssa.Value, vc int64, strict bool, lenOff int64) {
+			lo, ok := structuralLower(v)
+			if call, isCall := v.(*ssa.Call); isCall && len(call.Call.Args) > 0 && w.indexOfContract(staticCallee(call)) {
+				lo, ok = 0, true
+				if !strict {
+					// v != len(x) puts v below the length only if v ≤ len(x) is known: the
+					// searched slice is this one, not re-assigned since (its load is current)
+					arg := call.Call.Args[0]
+					strict = vc == 0 && lenOff == 0 && sameKey(w.keyOf(arg), key) && (key.reg != nil || s.usable(arg))
+				}
+			}
+			if ok && strict {
+				s.L = s.L.refine(token.GEQ, lo+vc-lenOff+1)
+			}
+		}
+		switch {
+		case yIsLen && !xK && (op == token.LSS || op == token.NEQ):
+			below(xr, xc, op == token.LSS, yl)
+		case xIsLen && !yK && (op == token.GTR || op == token.NEQ):
+			below(yr, yc, op == token.GTR, xl)
+		}
 		return s
 	}
 	in[blocks[0]] = init
